@@ -226,6 +226,11 @@ class MultiTerm(qcore.Query):
                     context = SearchContext(weighting=None)
             # Or the terms together
             m = Or(qs, boost=self.boost).matcher(searcher, context)
+
+        if constantscore:
+            # Every matching document gets the same score, whatever the number
+            # of expanded terms in this segment and the matcher chosen for them
+            m = matching.ConstantScoreWrapperMatcher(m, score=self.boost)
         return m
 
 
